@@ -68,7 +68,17 @@ func runStream(rd io.Reader, reuseMode int, r *Rng) streamOutcome {
 	var out streamOutcome
 	var sb strings.Builder
 	deadline := time.After(180 * time.Second)
+	// modes 3..5: the same reuse behaviour with a consumer that lags behind the reader (the
+	// reader reaches end of stream / its error while the forwarding queue is full)
+	slow := reuseMode >= 3
+	reuseMode %= 3
+	if slow {
+		time.Sleep(15 * time.Millisecond)
+	}
 	for {
+		if slow {
+			time.Sleep(150 * time.Microsecond)
+		}
 		select {
 		case v, ok := <-res:
 			if !ok {
@@ -106,7 +116,7 @@ func runStream(rd io.Reader, reuseMode int, r *Rng) streamOutcome {
 
 func checkC09(c *Ctx) {
 	r := c.Rng
-	c.Ev.Coverage.Rule = "NDJSON streams of 1..400 documents of very different sizes with blank lines anywhere (also only blank lines at the end, CRLF), read through a reader that fragments at sizes from {1,2,3,7,64,4095,4096,4097,random,whole} (cuts inside tokens, inside blank runs, right before/after LF), with the reuse channel fed never/sometimes/always; delivered roots in order must equal the Coq specification nd_spec of the stream, followed by io.EOF and close, nothing after the error. With an injected reader error at a sweep of offsets (every offset for small streams): delivered documents must be a prefix of the specification's sequence, the injected error delivered last, then close. non-trivial = stream with >= 2 chunks; distinct = by (stream, fragmentation, failure offset)"
+	c.Ev.Coverage.Rule = "NDJSON streams of 1..400 documents of very different sizes with blank lines anywhere (also only blank lines at the end, CRLF), read through a reader that fragments at sizes from {1,2,3,7,64,4095,4096,4097,random,whole} (cuts inside tokens, inside blank runs, right before/after LF), with the reuse channel fed never/sometimes/always, one run in five with a consumer that lags behind the reader (queue full when the reader ends); delivered roots in order must equal the Coq specification nd_spec of the stream, followed by io.EOF and close, nothing after the error. With an injected reader error at a sweep of offsets (every offset for small streams): delivered documents must be a prefix of the specification's sequence, the injected error delivered last, then close. non-trivial = stream with >= 2 chunks; distinct = by (stream, fragmentation, failure offset)"
 	sizeSets := [][]int{{1}, {2}, {3}, {7}, {64}, {4095}, {4096}, {4097}, {1 << 20}, {1, 64, 3}, {5, 1, 1, 200}, nil}
 	type job struct {
 		stream []byte
@@ -153,7 +163,7 @@ func checkC09(c *Ctx) {
 		if sizes == nil {
 			sizes = []int{1 + r.Intn(50), 1 + r.Intn(500), 1 + r.Intn(5)}
 		}
-		j := &job{stream: st, sizes: sizes, fail: -1, reuse: i % 3}
+		j := &job{stream: st, sizes: sizes, fail: -1, reuse: i%3 + 3*((i/3)%5/4)}
 		j.out = runStream(&fragReader{data: st, sizes: sizes, failAt: -1}, j.reuse, r)
 		jobs = append(jobs, j)
 		// reader failures
@@ -162,13 +172,13 @@ func checkC09(c *Ctx) {
 				if !c.Thorough() && off%3 != i%3 {
 					continue
 				}
-				jf := &job{stream: st, sizes: sizes, fail: off, reuse: i % 3}
+				jf := &job{stream: st, sizes: sizes, fail: off, reuse: i%3 + 3*((i/3)%5/4)}
 				jf.out = runStream(&fragReader{data: st, sizes: sizes, failAt: off}, jf.reuse, r)
 				jobs = append(jobs, jf)
 			}
 		} else if i%2 == 0 {
 			off := r.Intn(len(st))
-			jf := &job{stream: st, sizes: sizes, fail: off, reuse: i % 3}
+			jf := &job{stream: st, sizes: sizes, fail: off, reuse: i%3 + 3*((i/3)%5/4)}
 			jf.out = runStream(&fragReader{data: st, sizes: sizes, failAt: off}, jf.reuse, r)
 			jobs = append(jobs, jf)
 		}
